@@ -183,22 +183,8 @@ fn raster_scan_setup() {
     }
 }
 
-// @ob props=C04,C05 tier=thorough kind=P cfg=core-std timeout=3600
-// @fn scan
-// @clause scan set-up, y pre-step: the left start point carries the first row's y (within 1e-4) and the per-row step advances y by 1 (within 1e-4), for every trapezoid with coordinates in [0,64] and height >= 0.01
-#[cfg(not(verif_skip_raster_scan_prestep_y))]
-#[kani::proof]
-fn raster_scan_prestep_y() {
-    let (y0, y1) = (any_f(0.0, 64.0), any_f(0.0, 64.0));
-    kani::assume(y1 - y0 >= 0.01);
-    let p = |x, y| -> Varyings<()> { (pt3(x, y, 1.0), ()) };
-    let (l0, l1) = (p(any_f(0.0, 64.0), y0), p(any_f(0.0, 64.0), y1));
-    let (r0, r1) = (p(any_f(0.0, 64.0), y0), p(any_f(0.0, 64.0), y1));
-    let it = scan(y0..y1, &l0..&l1, &r0..&r1);
-    kani::cover!(it.n >= 2);
-    assert!((it.left.val.0.y() - it.y).abs() <= 1e-4);
-    assert!((it.left.step.0.y() - 1.0).abs() <= 1e-4);
-}
+// Tried and dropped: the y pre-step of scan() (left start point carries the first row's y within 1e-4, per-row step advances y by 1
+// within 1e-4) for every trapezoid: no verdict in 33 min (a chain of symbolic float products, limit L1).
 
 // @ob props=C02,C04 tier=quick kind=P cfg=core-std timeout=600
 // @fn scan
@@ -279,17 +265,9 @@ fn raster_zdiv_impls() {
     ().z_div(z);
 }
 
-// @ob props=C05 tier=thorough kind=P cfg=core-std timeout=3000
-// @fn <f32 as ZDiv>::z_div
-// @clause scalar perspective division is the correctly rounded quotient a / z for all f32 pairs
-#[cfg(not(verif_skip_raster_zdiv_scalar_all))]
-#[kani::proof]
-fn raster_zdiv_scalar_all() {
-    let (a, z): (F, F) = (kani::any(), kani::any());
-    let r = a.z_div(z);
-    kani::cover!(z > 0.001 && z < 1.0);
-    assert!(r.to_bits() == (a / z).to_bits() || (r.is_nan() && (a / z).is_nan()));
-}
+// Tried and dropped: scalar z_div against a second divider circuit for ALL f32 pairs (`a.z_div(z) == a / z`): no verdict in 33 min
+// (two structurally identical float dividers are not merged by the SAT back end, DESIGN 3a.7). The power-of-two family above is
+// the strongest form that is decided.
 
 // @ob props=C05 tier=quick kind=B cfg=core-std timeout=900
 // @fn Scanline::fragments
